@@ -35,8 +35,13 @@ CLAIMED = {
          "and its attribute, every operator spelling and its AST node, the precedence levels (per operator, not > comparisons > and > or), the shapes "
          "built for ranges / implicit lists / regex, that select and select_expression share one parse, and that malformed input ends in an exception.",
          _NOTE, "DESIGN.md §4 C12"),
+ "C17": ("dependence-set analysis of the cell conversions, literal-zero orientation check, positional agreement getter/setter vs callee signatures, package-wide paired-field enumeration, degree/radian unit inference",
+         "Which inputs each output of the lengths/angles <-> box-vector conversions depends on (alpha=angle(b,c), beta=angle(c,a), gamma=angle(a,b); "
+         "a along x, b in the xy plane) is decided for unitcell.py, the Trajectory property pair and the LAMMPS box reader/writer; lengths and angles "
+         "travel together at every construction/assignment site of the package; degrees are converted before cos/sin and back after arccos. "
+         "Numerical agreement is not decided.", _NOTE, "DESIGN.md §4 C17"),
 }
 _PENDING = "check not built yet in this round (design in DESIGN.md §4); will be claimed when its rules run clean"
-NA = {k: _PENDING for k in ["C01","C05","C06","C07","C08","C09","C10","C11","C13","C14","C15","C17"]}
+NA = {k: _PENDING for k in ["C01","C05","C06","C07","C08","C09","C10","C11","C13","C14","C15"]}
 NA["C16"] = ("every clause is numerical equality of computed arrays with closed-form expressions; no structural "
              "necessary condition covers more than one of the fifteen functions (DESIGN.md §5)")
